@@ -4,6 +4,13 @@ SPEC = dict(
     props_file='Props/C14.v', props_mod='Props.C14',
     proof_files=['Proofs/Persist.v', 'Proofs/PersistDrv.v', 'Drv/Persist.v'],
     tie_vo=['Proofs/ConstsTie_buckets.vo'],
+    # every write transaction of persistence.go goes through a counting hook (identity unless a crash worker
+    # installs it): deterministic crash points "die right after the k-th committed transaction".
+    # Fails closed: no match => REWRITE-FAILED => correspondence broken.
+    rewrites=[('internal/persistence/persistence.go',
+               [(r'\b(\w+)\.Update\(', r'verifUpdate(\1, '),
+                (r'\b(\w+)\.Batch\(', r'verifBatch(\1, '),
+                (r'\b(\w+)\.Commit\(\)', r'verifCommit(\1)')], None)],
     drivers=[dict(name='persist', drv_mod='Drv.Persist', drv_file='Drv/Persist.v', shard=40,
                   args={'quick': ['n=150', 'steps=14', 'kills=32', 'killops=40', 'diskkills=1'],
                         'thorough': ['n=1500', 'steps=24', 'kills=320', 'killops=60', 'diskkills=1']},
@@ -15,7 +22,7 @@ SPEC = dict(
          '(json rejects); after every step all 8 entries are loaded (two thirds of the foreign writes are first met by another operation); '
          'plus one table case per blob x kind. kill cases: a worker process executes a sequence (big values among them), is SIGKILLed at a '
          'seeded fraction of its calibrated run time, a fresh process loads all 8 entries; allowed = model state after the journalled '
-         'completed operations with the in-flight one applied or not. For RPM-curve data the saved value is the entry set of the fan\'s map '
+         'completed operations with the in-flight one applied or not. crash-point cases (killat): every db.Update/db.Batch/tx.Commit of persistence.go is routed (build-time rewrite, fails closed) through a counting hook; for one systematic and one seeded sequence (first saves, overwrites, deletes of present/absent entries, loads, both kinds, three fans) and for EVERY k a worker kills itself (SIGKILL) right after its k-th committed transaction, a fresh process loads everything, judged by the same crash relation (on the unchanged tree every operation is one transaction). For RPM-curve data the saved value is the entry set of the fan\'s map '
          '(SaveFanPwmData copies it), so a nil map there counts as the empty map; float payloads are compared bit for bit. '
          'Non-trivial = at least two distinct entries saved and one load returned data (kill: killed after >= 2 completed operations); '
          'distinct = distinct case terms.',
